@@ -189,6 +189,32 @@ Proof.
   destruct (Nat.eqb_spec a k') as [->|Hne]; [apply Hni, s_has_in; exact H|exact (IH Hn' H)].
 Qed.
 
+(* ... and transitive (keys distinct), so it is the strict total order of iteration *)
+Lemma s_has_after (s : smap) a c : s_has (after a s) c = true -> s_has s c = true.
+Proof.
+  unfold s_has. induction s as [|[k' v'] r IH]; simpl; [auto|].
+  destruct (Nat.eqb a k'); intros H; destruct (Nat.eqb c k'); auto.
+Qed.
+
+Lemma after_after (s : smap) a b : NoDup (map fst s) -> s_has (after a s) b = true ->
+  after b s = after b (after a s).
+Proof.
+  induction s as [|[k' v'] r IH]; simpl; intros Hn H; [reflexivity|].
+  inversion Hn as [|x l Hni Hn']; subst.
+  destruct (Nat.eqb_spec a k') as [->|Ha].
+  - destruct (Nat.eqb_spec b k') as [->|Hb]; [|reflexivity].
+    exfalso. apply Hni, s_has_in. exact H.
+  - destruct (Nat.eqb_spec b k') as [->|Hb]; [|exact (IH Hn' H)].
+    exfalso. apply Hni, s_has_in, (s_has_after r a). exact H.
+Qed.
+
+Lemma before_trans (s : smap) a b c : NoDup (map fst s) ->
+  before a b s -> before b c s -> before a c s.
+Proof.
+  unfold before. intros Hn Hab Hbc. rewrite (after_after s a b Hn Hab) in Hbc.
+  exact (s_has_after _ b c Hbc).
+Qed.
+
 (* Filter: if both keys survive the predicate, their relative order survives too *)
 Lemma after_filter (s : smap) a va f : s_get s a = Some va -> f a va = true ->
   after a (s_filter s f) = s_filter (after a s) f.
@@ -313,5 +339,9 @@ Proof.
   - destruct (before_live _ _ _ H) as [Ha Hb]. unfold s_has in *. rewrite !(get_abs zero _ _ HI) in *.
     split; [exact Ha|exact Hb].
 Qed.
+
+Theorem m_before_trans m a b c : Inv m ->
+  before a b (abs m) -> before b c (abs m) -> before a c (abs m).
+Proof. intros HI. apply before_trans. exact (abs_keys_nodup zero m HI). Qed.
 
 End Laws.
